@@ -10,7 +10,7 @@
      v_cache  - (use_shared) built-in cursor shared by all screens (F15d, /repo commit 8f58d2d)
    The correspondence run executes the model with all four = true. *)
 From LV Require Import Cursor.CursorDefs Cursor.CursorProofs Cursor.CursorSession Cursor.CursorSessionProofs
-  Cursor.CursorMaskProofs Cursor.CursorShapeProofs Cursor.CursorColour Cursor.CursorAudit Gen.Consts_C15.
+  Cursor.CursorMaskProofs Cursor.CursorShapeProofs Cursor.CursorColour Cursor.CursorAudit Cursor.CursorXFromRich Cursor.CursorSurvivors Gen.Consts_C15.
 Local Open Scope Z_scope.
 
 (* ---------------------------------------------------------------- rfbShowCursor / rfbHideCursor *)
@@ -92,6 +92,22 @@ Theorem C15_redraw_covers_all_clients_no_write_failure : forall fixed v_empty fm
   Forall (Inv fixed fmt s') (map fst res).
 Proof. exact inv_pump. Qed.
 
+(* ... and when writes FAIL (any client, any number of them): the client whose write fails is closed; every
+   client that is still open after the round has its invariant.  AInv s cl = (alive cl = true -> Inv s cl). *)
+Theorem C15_redraw_covers_all_clients : forall fixed v_empty fmt cls s s' res,
+  wf_fb (sfb s) -> wf_ocursor (scur s) ->
+  Forall (AInv fixed fmt s) cls ->
+  pump fixed v_empty fmt s cls = Some (s', res) ->
+  sfb s' = sfb s /\ wf_ocursor (scur s') /\ ocursor_equiv fmt (scur s) (scur s') /\
+  Forall (AInv fixed fmt s') (map fst res).
+Proof. exact inv_pump_alive. Qed.
+
+Theorem C15_update_any_outcome : forall fixed v_empty fmt s cl s' cl' o,
+  wf_fb (sfb s) -> wf_ocursor (scur s) ->
+  Inv fixed fmt s cl -> send_update fixed v_empty fmt s cl = Some (s', cl', o) ->
+  AInv fixed fmt s' cl'.
+Proof. exact inv_send_update_alive. Qed.
+
 (* the application replaces the cursor from its displayHook at the head of rfbSendFramebufferUpdate
    (rfbSetCursor during an update, possibly one whose write fails): the framebuffer is restored, and
    when the writes succeed every client keeps its invariant, over a whole round of the event loop *)
@@ -109,6 +125,16 @@ Theorem C15_redraw_covers_with_hook_no_write_failure : forall k fixed v_empty fm
   pump_rounds k fixed v_empty fmt hook s cls outs = Some (s', cls', outs', fired) ->
   sfb s' = sfb s /\ wf_ocursor (scur s') /\ Forall (Inv fixed fmt s') cls'.
 Proof. exact inv_pump_rounds. Qed.
+
+(* the same rounds when writes may fail: survivors keep their invariant *)
+Theorem C15_redraw_covers_with_hook : forall fuel fixed v_empty fmt hook s cls outs s' cls' outs' fired,
+  wf_fb (sfb s) -> wf_ocursor (scur s) ->
+  (forall hk nc, hook = Some (hk, nc) -> wf_ocursor nc) ->
+  Forall (AInv fixed fmt s) cls ->
+  pump_rounds fuel fixed v_empty fmt hook s cls outs = Some (s', cls', outs', fired) ->
+  sfb s' = sfb s /\ wf_ocursor (scur s') /\ Forall (AInv fixed fmt s') cls'.
+Proof. exact ainv_pump_rounds. Qed.
+
 
 Theorem C15_picture_converges_if_sent : forall fixed v_empty fmt s cl s' cl' o,
   wf_fb (sfb s) -> wf_ocursor (scur s) -> failnext cl = false ->
@@ -227,6 +253,28 @@ Theorem C15_rgb_word_scaled_ok : forall fmt kr kg kb c3,
   colour_ok fmt c3 (pixmod fmt (rgb_word_scaled fmt c3)).
 Proof. exact rgb_word_scaled_ok. Qed.
 
+(* C15_x_from_rich - rfbMakeXCursorFromRichCursor, stated without the mirror's loops (CursorXFromRich.v): size,
+   hot-spot, mask, pixels, alpha, background unchanged; the foreground becomes white exactly when the colours are
+   interpolated (all six components 0 and 1, 2 or 4 bytes per pixel); source bit (i,j) - row-major, (cw+7)/8
+   bytes per row, most significant bit first - is  luminance(pixel) >= 128  when interpolating (mean of the three
+   channels (p >> shift) & max scaled to 0..255) and  pixel <> background pixel  otherwise (background pixel =
+   channels max*comp/65535, colour_ok); padding bits are 0.  Every true-colour format with separate channels of
+   at least one bit inside a pixel of at most 4 bytes.  This is the function whose result C15_shape_message's
+   rich -> XCursor payload is stated on.  (trueColour = FALSE: C takes the second rule; not modelled.) *)
+Theorem C15_x_from_rich : forall fmt kr kg kb c c',
+  fmt_ok fmt kr kg kb -> 1 <= kr -> 1 <= kg -> 1 <= kb -> bpp fmt <= 4 ->
+  (let '(r, g, b) := cback c in 0 <= r /\ 0 <= g /\ 0 <= b) ->
+  0 <= cw c -> 0 <= ch c -> make_x_from_rich fmt c = Some c' ->
+  cw c' = cw c /\ ch c' = ch c /\ cxhot c' = cxhot c /\ cyhot c' = cyhot c /\ cmask c' = cmask c /\
+  crich c' = crich c /\ calpha c' = calpha c /\ cback c' = cback c /\
+  cfore c' = (if interp_of fmt c then (65535, 65535, 65535) else cfore c) /\
+  exists src, csource c' = Some src /\ length src = Z.to_nat (w8 c * ch c) /\
+    forall i j, 0 <= i < 8 * w8 c -> 0 <= j < ch c ->
+      if i <? cw c
+      then exists p, zidx (opt_list (crich c)) (j * cw c + i) = Some p /\ src_bit c src i j = x_bit_rule fmt c p
+      else src_bit c src i j = false.
+Proof. exact x_from_rich_spec. Qed.
+
 (* rfbSendCursorShape: a cursor with pixels is announced with its exact hot-spot and size, followed
    by exactly the payload RFB prescribes: colours + bitmap + mask (XCursor) or pixels + mask *)
 Theorem C15_shape_message : forall v_empty rich fmt c oc' bytes,
@@ -312,15 +360,14 @@ Proof. exact inv_new_framebuffer. Qed.
      paddedWidthInBytes arithmetic of cursor.c is exercised by the harness (op `stride`: rows further apart than
      width*bpp, padding bytes must stay untouched), not modelled.  bufSize = cw*ch*bpp is an `int` product in C
      and the malloc results of rfbShowCursor/rfbMake*Cursor* are unchecked: statements hold for cw*ch*bpp < 2^31.
-   - C15_redraw_covers_all_clients_no_write_failure / _with_hook_no_write_failure: premise "no client's write
-     fails in this round"; for rounds with failing writes only `sfb` restored (C15_update_with_hook_restores_fb) is
-     proved; the picture of the SURVIVORS of such a round is checked by the session generator (flavours fail, hook).
+   - rounds with failing writes: PROVED since the final round (C15_redraw_covers_all_clients,
+     C15_redraw_covers_with_hook, C15_update_any_outcome: every client still open keeps Inv); the variants named
+     _no_write_failure conclude Inv for all clients under the premise that no write fails.
    - C15_rich_cache_valid_*: CacheOK is preserved by the operations named there; it is not a premise of a picture
      theorem and not proved preserved by shape_msg (rfbSendCursorShape derives the rich form for the CLIENT's
      translation) - the consumer is C15_rich_cache_matches_format for the built-in cursor only.
-   - rfbMakeXCursorFromRichCursor (make_x_from_rich): mirrored and run (generator `makex`), NO theorem; its
-     trueColour = FALSE branch and redMax = 0 are outside the model.  Hence the payload of C15_shape_message in the
-     rich -> XCursor branch is stated on the result of that unproved function.
+   - rfbMakeXCursorFromRichCursor: PROVED since the final round (C15_x_from_rich) for true-colour formats;
+     its trueColour = FALSE branch and redMax = 0 (division by zero in C) are outside the model.
    - C15_pos_message: on the abstract pair (x, y); the wire bytes and the 16-bit truncation of rfbSendCursorPos
      are compared by the correspondence run.  The 1x1 transparent cursor sent when there is no cursor
      (C15_shape_message_no_cursor) is stated; the rule for a rich cursor without source bitmap is not.
